@@ -124,9 +124,9 @@ fn gen_host(_tier: Tier, emit: Emit) {
     }
     // comparisons
     let all_ops = [CmpOp::Eq, CmpOp::Ne, CmpOp::Lt, CmpOp::Le, CmpOp::Gt, CmpOp::Ge];
-    for less in [false, true] {
-        for equal in [false, true] {
-            let mask = (if less { 1 << 18 } else { 0 }) | (if equal { 1 << 19 } else { 0 });
+    for (less, equal, le) in [(false, false, false), (false, true, false), (true, false, false), (true, true, false), (true, true, true), (false, false, true), (true, false, true)] {
+        {
+            let mask = (if less { 1 << 18 } else { 0 }) | (if equal { 1 << 19 } else { 0 }) | (if le { 1 << 24 } else { 0 });
             for op in all_ops {
                 for other in [int(3), host("HR", 0), s("x")] {
                     let mut p = prelude();
